@@ -955,7 +955,7 @@ func (g *wgen) shipSpec(labels []string, faulty bool) *ShipSpec {
 		s.Perm = r.Perm(len(labels))
 	}
 	if faulty && r.Chance(0.3) {
-		s.Fault = Pick(r, []string{"lost", "dup", "flip", "trunc"})
+		s.Fault = Pick(r, []string{"lost", "dup", "flip", "trunc", "relabel"})
 		s.Entry = r.Intn(8)
 		s.Bit = r.Intn(1 << 14)
 		s.TruncMille = r.Range(1, 999)
@@ -1449,6 +1449,12 @@ func genWorld(r *Rand, cfg GenCfg) Plan {
 		g.issueInv(inv2)
 		g.emit(WStep{Op: "ship", Ship: g.shipSpec(append(append([]string{}, dl...), append(il, d2.Label, inv2.Label)...), false)})
 		g.emit(WStep{Op: "check", Check: &CheckSpec{Inv: c.inv.Label}})
+		g.emit(WStep{Op: "check", Check: &CheckSpec{Inv: inv2.Label}})
+		g.emit(WStep{Op: "check", Check: &CheckSpec{Inv: c.inv.Label}})
+		// ... then a CAR in which the deviating delegation and the one it replaces sit under each
+		// other's labels (both genuine, same principals): whatever the reader makes of it, the name
+		// of the deviating one must not come to serve the other
+		g.emit(WStep{Op: "ship", Ship: &ShipSpec{Labels: []string{c.dlgs[j].Label, d2.Label}, Format: Pick(r, []string{"car", "carb64"}), RStream: r.Chance(0.5), Fault: "relabel"}})
 		g.emit(WStep{Op: "check", Check: &CheckSpec{Inv: inv2.Label}})
 		g.emit(WStep{Op: "check", Check: &CheckSpec{Inv: c.inv.Label}})
 		g.note("sibling:" + kind)
